@@ -32,7 +32,12 @@ def run(ctx):
     R5 = rep.rule('C03.R5', 'with_cow passes the whole payload of every FileContent variant', floor=3)
     S1 = rep.rule('C02.R2', 'failure caches nothing (shared with C02)', floor=2)
     R6 = rep.rule('C03.R6', 'trait defaults: default_value returns the error it is given, EXTENSIONS defaults to [EXTENSION], an Asset is loaded through load_from_source(cache.raw_source(), id)', floor=3)
+    S2 = rep.rule('C05.R1', '"the first declared extension whose file can be read" stays true under hot-reloading: a file that was tried and not found is recorded as a dependency, so that its creation is noticed (shared with C05)', floor=5)
     for cfg, F in ctx.cfgs():
+        if 'hot-reloading' in ctx.cfg_features[cfg]:
+            from c05 import r1 as record_before_read
+            record_before_read(S2, cfg, F)
+            S2.finish_cfg(cfg)
         r6(R6, cfg, F)
         R6.finish_cfg(cfg)
         r1(R1, R3, cfg, F)
